@@ -1281,19 +1281,31 @@ class Executor:
         locals_ = {n for n in assigned if n not in st.env}
         if (mutated - locals_) or (assigned - locals_):
             return None
+        c0 = next(_fresh)
         x = fresh(f"e{k}", it.esort)
         s_body = st.fork()
         s_body.assume(it.mem[x])
+        base = len(s_body.pc)
         self.assign(node.target, val_of(x), s_body)
         out = []
+        through = []
         for s2, o in self.exec_block(node.body, s_body):
             if o.kind in ("normal", "continue"):
+                cond = z3.And(*s2.pc[base:]) if len(s2.pc) > base else z3.BoolVal(True)
+                fr = [c for c in self.fresh_consts_in(cond, c0) if not c.eq(x)]
+                if any(isinstance(c.sort(), z3.ArraySortRef) for c in fr):
+                    through = None   # per-iteration fresh collections: no summary of the fall-through paths
+                elif through is not None:
+                    through.append(z3.Exists(fr, cond) if fr else cond)
                 continue
             if o.kind == "break":
                 out.append((s2, NORMAL))
             else:
                 out.append((s2, o))
         self.assumed.add("effect-free loop rule: a loop body that writes no modelled state is checked for one arbitrary element")
+        if through and not all(z3.is_true(z3.simplify(c)) for c in through):
+            # leaving the loop at its end means every element went through the body without break / return / raise
+            st.assume(z3.ForAll([x], z3.Implies(it.mem[x], z3.Or(*through))), f"loop{k}:every element fell through")
         out.append((st, NORMAL))
         return out
 
@@ -2293,6 +2305,12 @@ class Executor:
                 if r is not NotImplemented:
                     return r
                 raise Unsupported(f"super().{name}")
+            if recv.fields.get("__cpds__") and name == "get_cpds":
+                # a receiver declared with the functional CPD model (one CPD object per node, see lib.call_method): that model, not the
+                # list-based contract of get_cpds, answers the lookup
+                r = self.lib.call_method(self, recv.cls, recv, name, args, kwargs, st, node)
+                if r is not NotImplemented:
+                    return r
             for cname in self.classes.get(recv.cls, {}).get("mro", [recv.cls]):
                 q = f"{cname}.{name}"
                 if q in REGISTRY:
